@@ -218,7 +218,7 @@ def run(ctx):
         "encoder trained on the same data (ContextualHuffmanDecoder, ParallelHuffmanDecoder), from the same FseConfig (FSE), from the counts and "
         "select_variant(len) of the payload (AdaptiveRans64Encoder)",
         "contextual code tables are read through ContextualHuffmanEncoder::serialize + HuffmanTree::deserialize (the trees are private); quick judges "
-        "the baseline tree and 3 sampled context trees per training",
+        "the baseline tree and one sampled context tree on half of the trainings, thorough four trees on every training",
         "a panic or Err inside train / encode is an allowed refusal and is counted; a panic, Err, crash or timeout of a matching decode is rejected",
         "DictionaryCompressor is driven with payloads <= 8 KiB in quick (its matcher is quadratic), OptimizedDictionaryCompressor <= 64 KiB",
         "bounded: seeded input families (VERIF_SEED); SIMD tiers are the ones this CPU selects; no claim for inputs outside the families",
